@@ -1061,6 +1061,9 @@ class Interp:
     def power(self, a, b, sh, node):
         if a.k == "log":
             return unk("power of a log value")
+        if b.is_numlike and not b.wild and b.u != ZERO:
+            self.violation("DIM.D3", node, f"the exponent of a power has a dimension ({fmt(b.copy(sh=None))}): base and exponent are exchanged or the formula is not scale-equivariant")
+            return unk("dimensioned exponent")
         if b.cval is None:
             if a.wild or a.u == ZERO and a.s == 0:
                 return a.copy(sh=sh, cval=None)
